@@ -4,6 +4,7 @@ package main
 
 import (
 	"fmt"
+	"sort"
 	"strings"
 
 	"golang.org/x/tools/go/ssa"
@@ -176,11 +177,23 @@ func checkGffReader(c *Ctx, parse *ssa.Function) {
 		nUpd++
 		k, v := view.T(g, mu.Key), view.T(g, mu.Value)
 		// key = split(pair, "=")[0], value = split(pair, "=")[1], pair = each(split(fields[8], ";"))
+		trimmed := ""
+		untrim := func(t *Term) *Term {
+			for t != nil && t.Op == "call" && strings.HasPrefix(t.Name, "strings.Trim") && len(t.Args) >= 1 {
+				trimmed = t.Name
+				t = t.Args[0]
+			}
+			return t
+		}
 		kvOf := func(t *Term, idx string) (pairSep, listSep string, src *Term, ok bool) {
+			t = untrim(t)
 			if t.Op != "index" || !t.Args[1].isConst(idx) {
 				return
 			}
 			sp := t.Args[0]
+			if len(sp.Args) >= 1 {
+				sp = &Term{Op: sp.Op, Name: sp.Name, Args: append([]*Term{untrim(sp.Args[0])}, sp.Args[1:]...), V: sp.V}
+			}
 			if !(sp.isCall("strings.Split") || sp.isCall("strings.SplitN")) {
 				return
 			}
@@ -195,6 +208,8 @@ func checkGffReader(c *Ctx, parse *ssa.Function) {
 		ps1, ls1, src1, ok1 := kvOf(k, "0")
 		ps2, ls2, src2, ok2 := kvOf(v, "1")
 		switch {
+		case ok1 && ok2 && trimmed != "":
+			stA, whyA = broken, "attribute text passes through "+trimmed+" before it is stored: keys or values that begin or end with blanks come back altered (field text may contain blanks; only tab, newline, ';' and '=' are excluded)"
 		case !ok1 || !ok2:
 			if stA != broken {
 				whyA = "attribute store " + short(k.String()) + " -> " + short(v.String())
@@ -502,6 +517,26 @@ func checkGffWriter(c *Ctx, build *ssa.Function) {
 				s2 := unknown
 				if len(opaqueParts(l, vocabOf(vocab...))) == 0 && localDiff(l, wc.want) {
 					s2 = broken
+				}
+				// a coordinate column: Itoa(coordinate + constant); an offset that is not a constant does not
+				// invert the reader's fixed "- 1"
+				if wc.rule == "COORD" && l.isCall("strconv.Itoa") && len(opaqueParts(l, nil)) == 0 {
+					coefs, _, _ := linearForm(l.Args[0])
+					coord := "field[Start](field[SequenceLocation](" + feat + "))"
+					if k == 4 {
+						coord = "field[End](field[SequenceLocation](" + feat + "))"
+					}
+					if coefs[coord] == 1 && len(coefs) > 1 {
+						var others []string
+						for name := range coefs {
+							if name != coord {
+								others = append(others, short(name))
+							}
+						}
+						sort.Strings(others)
+						s2 = broken
+						ls = ls + " (the coordinate is offset by " + strings.Join(others, " + ") + ", not by a constant: the reader's fixed shift does not undo it)"
+					}
 				}
 				if st == holds || s2 == broken {
 					st, why = s2, fmt.Sprintf("column %d may hold %s; want %s", k+1, short(ls), short(wc.want))
